@@ -47,7 +47,7 @@ META = {
     "rule": "case = one scenario x one configuration compared with the reference run of that scenario; non-trivial = distinct scenarios with "
             ">=1 tie (>=3 actors returning at one date) compared under >=1 parallel configuration and the two other factories",
     "assumptions": ["the reference run (raw contexts, 1 thread) is taken as is: C01 checks that it is reproducible"],
-    "ready": False,
+    "ready": True,
 }
 
 STACK = ["--cfg=contexts/stack-size:256"]
@@ -103,7 +103,7 @@ def compare(ctx, cfg, tag, sc, ref, r, selftest=None):
     if selftest:
         log = pc.corrupt(log, selftest, random.Random(len(tag) + cfg[1]))
     # parallel runs: name the situation of the scenario in which dying actors make the kernel work concurrently (see death_hazards)
-    hz = (":hazard=" + (pc.death_hazards(ref["log"]) or "none")) if par else ""
+    hz = (":hazard=" + (pc.death_hazards(ref["log"], sc["text"]) or "none")) if par else ""
     if (r["rc"], r["sig"]) != (ref["rc"], ref["sig"]):
         ctx.violation("C02:diverge:%s:exit-status:rc=%s/sig=%s-vs-rc=%s/sig=%s%s" %
                       (cfg_class(cfg), ref["rc"], ref["sig"], r["rc"], r["sig"], hz),
